@@ -14,6 +14,7 @@ import (
 var (
 	identRegexp          = regexp.MustCompile(`^\[.*\]$`)
 	ErrInvalidIdentifier = errors.New("fatal: invalid identifier")
+	ErrInvalidConfig     = errors.New("fatal: invalid config line")
 )
 
 type kv map[string]string
@@ -78,7 +79,14 @@ func (c *Config) load(configPath string, isGlobal bool) error {
 				c.local[ident] = make(kv)
 			}
 		} else {
-			splitText := strings.Split(strings.Replace(text, "\t", "", -1), "=")
+			if strings.TrimSpace(text) == "" {
+				continue
+			}
+			// "key = value": the value is everything after the first '=' and may contain '='
+			splitText := strings.SplitN(strings.Replace(text, "\t", "", -1), "=", 2)
+			if len(splitText) != 2 || ident == "" {
+				return ErrInvalidConfig
+			}
 			key := strings.TrimSpace(splitText[0])
 			value := strings.TrimSpace(splitText[1])
 			if isGlobal {
